@@ -571,6 +571,15 @@ func (c *ExprCtx) addLin(l *Lin, v ssa.Value, co int64, depth int) bool {
 		case token.ADD:
 			return c.addLin(l, x.X, co, depth+1) && c.addLin(l, x.Y, co, depth+1)
 		case token.SUB:
+			// an unsigned difference of two variables wraps when the subtrahend is larger: it is
+			// not the integer difference (`size >= max - used` is not `size + used >= max`), so it
+			// stays an opaque term; subtracting a constant (index-1) is kept, as the rules that
+			// use it speak about indices >= 1
+			if isUnsigned(x.Type()) {
+				if _, isC := x.Y.(*ssa.Const); !isC {
+					return false
+				}
+			}
 			return c.addLin(l, x.X, co, depth+1) && c.addLin(l, x.Y, -co, depth+1)
 		case token.MUL:
 			if k, ok := x.X.(*ssa.Const); ok && k.Value != nil {
